@@ -34,7 +34,8 @@ RULE = ('split: Hypothesis-generated argument lists (1-5 non-empty args over let
         'single-quote / double-quote protection, joined by 1-3 white-space characters, optional leading/trailing '
         'white space; oracle split_command_line(rendered) == args.  which: generated PATH layouts in a temp dir vs '
         'a docstring reference.  probe: generated argv/cwd/env/dimensions/echo/ignore_sighup, reported back by a '
-        'real child started through spawn (string and list form, bytes and unicode mode) and PopenSpawn.  '
+        'real child started through spawn (string and list form, bytes and unicode mode) and PopenSpawn, one launch in '
+        'four repeated with the very same argument-list and env objects.  '
         'Non-trivial: an argument containing white space, a quote or a backslash; a PATH with >= 2 directories '
         'whose first candidate is not acceptable; a probe with a non-default cwd/env/dimension/echo/sighup '
         'setting.  Distinct by hash of the case.')
@@ -260,7 +261,9 @@ def probe_cases(draw):
             'cwd': draw(st.sampled_from([None, 'plain', 'with space', 'dîr€', "q'uote"])),
             'dims': draw(st.sampled_from([None, None, [1, 1], [24, 80], [50, 132], [3, 500], [200, 7]])),
             'echo': draw(st.booleans()), 'sighup': draw(st.booleans()),
-            'styles': draw(st.lists(st.sampled_from(['esc', 'sq', 'dq']), min_size=6, max_size=6))}
+            'styles': draw(st.lists(st.sampled_from(['esc', 'sq', 'dq']), min_size=6, max_size=6)),
+            # the same request objects (argument list, env mapping) are used for a second launch
+            'relaunch': draw(st.integers(0, 3)) == 0}
 
 
 def _render_arg(a, style):
@@ -316,69 +319,75 @@ def check_probe(case, col=None):
         enc = case['enc']
         env = case['env']
         full = [PY, '-S', '-E', PROBE] + args
+        arglist = ['-S', '-E', PROBE] + args
         kw = {}
         if enc:
             kw['encoding'] = enc
-        with guard('launch %s' % case['form']):
-            if case['form'] == 'popen':
-                child = PopenSpawn(full, cwd=cwd, env=env, timeout=20, **kw)
-            else:
-                pk = dict(cwd=cwd, env=env, echo=case['echo'], ignore_sighup=case['sighup'], timeout=20, **kw)
-                if case['dims']:
-                    pk['dimensions'] = tuple(case['dims'])
-                if case['form'] == 'list':
-                    child = pexpect.spawn(PY, ['-S', '-E', PROBE] + args, **pk)
+        launches = 2 if case.get('relaunch') else 1
+        for attempt in range(launches):
+            with guard('launch %s' % case['form']):
+                if case['form'] == 'popen':
+                    child = PopenSpawn(full, cwd=cwd, env=env, timeout=20, **kw)
                 else:
-                    line = ' '.join(_render_arg(a, s) for a, s in zip(full, case['styles'] + ['esc'] * 10))
-                    child = pexpect.spawn(line, **pk)
-            child.expect(pexpect.EOF)
-            out = child.before
-            if case['form'] != 'popen':
-                child.close()
+                    pk = dict(cwd=cwd, env=env, echo=case['echo'], ignore_sighup=case['sighup'], timeout=20, **kw)
+                    if case['dims']:
+                        pk['dimensions'] = tuple(case['dims'])
+                    if case['form'] == 'list':
+                        child = pexpect.spawn(PY, arglist, **pk)
+                    else:
+                        line = ' '.join(_render_arg(a, s) for a, s in zip(full, case['styles'] + ['esc'] * 10))
+                        child = pexpect.spawn(line, **pk)
+                child.expect(pexpect.EOF)
+                out = child.before
+                if case['form'] != 'popen':
+                    child.close()
+                else:
+                    child.wait()
+            if isinstance(out, bytes):
+                out = out.decode('latin-1')
+            m = re.search(r'<<<([0-9a-f]*)>>>', out)
+            if not m:
+                raise Violation('probe-no-report', 'the child did not report%s (output %r)' % (' at the second launch with the same objects' if attempt else '', out[-200:]))
+            rep = json.loads(bytes.fromhex(m.group(1)).decode('utf-8'))
+            got_argv = [bytes.fromhex(h) for h in rep['argv']]
+            if enc and case['form'] != 'popen':
+                want_argv = [a.encode(enc) for a in args]
             else:
-                child.wait()
-        if isinstance(out, bytes):
-            out = out.decode('latin-1')
-        m = re.search(r'<<<([0-9a-f]*)>>>', out)
-        if not m:
-            raise Violation('probe-no-report', 'the child did not report (output %r)' % out[-200:])
-        rep = json.loads(bytes.fromhex(m.group(1)).decode('utf-8'))
-        got_argv = [bytes.fromhex(h) for h in rep['argv']]
-        if enc and case['form'] != 'popen':
-            want_argv = [a.encode(enc) for a in args]
-        else:
-            want_argv = [os.fsencode(a) for a in args]
-        if got_argv != want_argv:
-            raise Violation('probe-argv', '%s form (encoding %r): the child received %r, requested %r'
-                            % (case['form'], enc, got_argv, want_argv))
-        got_cwd = bytes.fromhex(rep['cwd'])
-        want_cwd = os.fsencode(os.path.realpath(cwd if cwd else os.getcwd()))
-        if got_cwd != want_cwd:
-            raise Violation('probe-cwd', 'child cwd %r, requested %r' % (got_cwd, want_cwd))
-        got_env = {bytes.fromhex(k): bytes.fromhex(v) for k, v in rep['env'].items()}
-        if env is not None:
-            want_env = {os.fsencode(k): os.fsencode(v) for k, v in env.items()}
-        else:
-            want_env = {os.fsencode(k): os.fsencode(v) for k, v in os.environ.items()}
-        for junk in (b'LC_CTYPE',):       # python may add LC_CTYPE in C locale coercion
-            if junk not in want_env:
-                got_env.pop(junk, None)
-        if got_env != want_env:
-            raise Violation('probe-env', 'child environment differs: only in child %r, only in request %r'
-                            % (sorted(set(got_env.items()) - set(want_env.items()))[:4],
-                               sorted(set(want_env.items()) - set(got_env.items()))[:4]))
-        if case['form'] != 'popen':
-            want_dims = case['dims'] or [24, 80]
-            if rep['winsize'] != list(want_dims):
-                raise Violation('probe-winsize', 'child window size %r, requested %r' % (rep['winsize'], want_dims))
-            if rep['echo'] != case['echo']:
-                raise Violation('probe-echo', 'child ECHO flag %r, requested %r' % (rep['echo'], case['echo']))
-            if rep['sighup_ignored'] != case['sighup']:
-                raise Violation('probe-sighup', 'child ignores SIGHUP: %r, requested %r' % (rep['sighup_ignored'], case['sighup']))
+                want_argv = [os.fsencode(a) for a in args]
+            if got_argv != want_argv:
+                raise Violation('probe-argv', '%s form (encoding %r)%s: the child received %r, requested %r'
+                                % (case['form'], enc, ', second launch with the same argument list and env objects' if attempt else '',
+                                   got_argv, want_argv))
+            got_cwd = bytes.fromhex(rep['cwd'])
+            want_cwd = os.fsencode(os.path.realpath(cwd if cwd else os.getcwd()))
+            if got_cwd != want_cwd:
+                raise Violation('probe-cwd', 'child cwd %r, requested %r' % (got_cwd, want_cwd))
+            got_env = {bytes.fromhex(k): bytes.fromhex(v) for k, v in rep['env'].items()}
+            if env is not None:
+                want_env = {os.fsencode(k): os.fsencode(v) for k, v in env.items()}
+            else:
+                want_env = {os.fsencode(k): os.fsencode(v) for k, v in os.environ.items()}
+            for junk in (b'LC_CTYPE',):       # python may add LC_CTYPE in C locale coercion
+                if junk not in want_env:
+                    got_env.pop(junk, None)
+            if got_env != want_env:
+                raise Violation('probe-env', 'child environment differs: only in child %r, only in request %r'
+                                % (sorted(set(got_env.items()) - set(want_env.items()))[:4],
+                                   sorted(set(want_env.items()) - set(got_env.items()))[:4]))
+            if case['form'] != 'popen':
+                want_dims = case['dims'] or [24, 80]
+                if rep['winsize'] != list(want_dims):
+                    raise Violation('probe-winsize', 'child window size %r, requested %r' % (rep['winsize'], want_dims))
+                if rep['echo'] != case['echo']:
+                    raise Violation('probe-echo', 'child ECHO flag %r, requested %r' % (rep['echo'], case['echo']))
+                if rep['sighup_ignored'] != case['sighup']:
+                    raise Violation('probe-sighup', 'child ignores SIGHUP: %r, requested %r' % (rep['sighup_ignored'], case['sighup']))
         nt = bool(case['cwd'] or case['env'] is not None or case['dims'] or not case['echo'] or case['sighup']
                   or any(any(c in ' \t\'"\\' for c in a) for a in args))
         if col is not None:
             col.label('probe:' + case['form'])
+            if launches == 2:
+                col.label('probe:relaunch-with-same-objects')
             col.case(case, nt)
     finally:
         shutil.rmtree(root, ignore_errors=True)
